@@ -433,6 +433,9 @@ fn structural(p: &MovePicker, nc: usize, nq: usize) -> bool {
     }
 }
 
+pub static mut STEP_ST0: u8 = 0;
+pub static mut STEP_SOME: bool = false;
+
 fn step(loud: bool) {
     let (nc, nq) = any_lists();
     let hash = if loud { None } else { any_move_opt() };
@@ -481,13 +484,9 @@ fn step(loud: bool) {
         GEN_QUIETS_CALLS = 0;
     }
     let r = p.next(&game, &ctx, kani::any());
-    if loud {
-        kani::cover!(st0 == 7 && r.is_some());
-        kani::cover!(st0 == 2 && r.is_none());
-    } else {
-        kani::cover!(st0 == 6 && r.is_some());
-        kani::cover!(st0 == 7 && r.is_some());
-        kani::cover!(st0 == 9 && r.is_none());
+    unsafe {
+        STEP_ST0 = st0;
+        STEP_SOME = r.is_some();
     }
     assert!(structural(&p, nc, nq));
     match r {
@@ -522,6 +521,11 @@ fn step(loud: bool) {
 #[kani::unwind(10)]
 fn vk_c10_step_full() {
     step(false);
+    unsafe {
+        kani::cover!(STEP_ST0 == 6 && STEP_SOME);
+        kani::cover!(STEP_ST0 == 7 && STEP_SOME);
+        kani::cover!(STEP_ST0 == 9 && !STEP_SOME);
+    }
 }
 
 //@ obligation: C10.step.loud
@@ -534,6 +538,10 @@ fn vk_c10_step_full() {
 #[kani::unwind(10)]
 fn vk_c10_step_loud() {
     step(true);
+    unsafe {
+        kani::cover!(STEP_ST0 == 7 && STEP_SOME);
+        kani::cover!(STEP_ST0 == 2 && !STEP_SOME);
+    }
 }
 
 //@ obligation: C10.step.initial
